@@ -124,6 +124,38 @@ class ShardStats(object):
                 "transitions": self.transitions, "maxdepth": self.maxdepth}
 
 
+def _stride(case, n):
+    import zlib
+    return zlib.crc32(jdump(case).encode()) % n == 0
+
+
+def _oeo(mod, case, how):
+    """'operate - edit in place - operate again': second pass of a case (modules with OEO = True) on the SAME array object that the first
+    pass built and used for case['a'], after it was edited in place through the public API (first two labels of every axis swapped / first
+    cell assigned); the module's own check runs unchanged against the correspondingly edited reference.  -> result or None (not applicable)"""
+    from mc import domains as _D, common as _C
+    key = _D._key(case["a"])
+    a = _D.LAST.get(key)
+    if a is None:
+        return None
+    try:
+        ra2 = _D.edit_in_place(a, _D.build_ref(case["a"]), case["a"], how)
+    except Exception as e:
+        return bad("in-place edit {} of the array after the first pass raised {}: {}".format(how, type(e).__name__, e), klass="unexpected-exception")
+    if ra2 is None:
+        return None
+    _D.RECORD = False
+    _D.REUSE = {key: (a, ra2)}
+    try:
+        r2 = mod.check(case)
+    finally:
+        _D.REUSE = {}
+    if not r2["ok"]:
+        return bad("second pass on the same array after the in-place edit '{}' (labels now {}): {}".format(how, list(ra2.labels), r2.get("detail", "")),
+                   klass=r2.get("klass", "mismatch"))
+    return r2
+
+
 def safe_check(mod, case):
     from mc import domains as _D
     _D.VSHIFT = case.get("vshift", 0) if isinstance(case, dict) else 0
@@ -139,8 +171,39 @@ def safe_check(mod, case):
             if not r["ok"]:
                 r = bad("second identical run of the case, the first one having left the global options {} : {}".format(
                     _C.leaked_options(), r.get("detail", "")), klass=r.get("klass", "mismatch"))
+        elif isinstance(case, dict) and case.get("oeo"):
+            # replay of a case whose verdict comes from the second pass (see _oeo)
+            _D.RECORD, _D.LAST = True, {}
+            try:
+                mod.check(case)
+            except Exception:
+                pass
+            r = _oeo(mod, case, case["oeo"]) or ok("oeo-n/a")
         else:
+            eligible = getattr(mod, "OEO", False) and isinstance(case, dict) and isinstance(case.get("a"), dict)
+            oeo = eligible and _stride(case, 3)
+            # decoy pre-pass: the same calls on a look-alike array first (same dims, sizes, end labels - other labels in between, other
+            # values), result ignored: whatever the library remembers under a key coarser than the full content now belongs to the decoy
+            if eligible and (case.get("decoy") or (not oeo and _stride(case, 4))):
+                ds_ = _D.decoy_spec(case["a"])
+                if ds_ is not None:
+                    case["decoy"] = True
+                    try:
+                        mod.check(dict(case, a=ds_))
+                    except Exception:
+                        pass
+                    _C.reset_options()
+            if oeo:
+                _D.RECORD, _D.LAST = True, {}
             r = mod.check(case)
+            if oeo and r["ok"] and not r.get("unspecified"):
+                how = "swap_labels" if _stride(case, 2) else "assign_cell"      # one edit per case (the array is edited for good)
+                if isinstance(mod.OEO, (tuple, list)) and how not in mod.OEO:     # a module may restrict the edits (arguments that embed labels)
+                    how = mod.OEO[0]
+                r2 = _oeo(mod, case, how)
+                if r2 is not None and not r2["ok"]:
+                    case["oeo"] = how
+                    r = r2
             leak = _C.leaked_options()
             if r["ok"] and leak and isinstance(case, dict):
                 # the calls of this case left global option state behind.  That is not itself what the properties forbid - a LATER call
@@ -154,6 +217,7 @@ def safe_check(mod, case):
         r = bad("HARNESS-ERROR " + traceback.format_exc(limit=6), klass="harness-error")
     finally:
         _D.VSHIFT = 0
+        _D.RECORD, _D.LAST, _D.REUSE = False, {}, {}
         try:
             from mc import common
             common.reset_options()
@@ -466,7 +530,7 @@ def run_property(prop_id, tier="quick", seed=0, jobs=None):
         "samples": ctx.samples[:5] or [{"note": "no sample recorded"}],
         "exhaustive": exhaustive,
         "bounds": dict(mod.bounds(tier) if hasattr(mod, "bounds") else {},
-                       state_variants=("every case on each of the 7 history variants of its array (T, slice, take, ds, mono, relabel, shallow)"
+                       state_variants=("every case on each of the non-fresh history variants of its array (T, slice, take, ds, mono, relabel, shallow, rslice)"
                                        if getattr(ctx, "variant_sweep", False) else "one history variant per array, chosen by its index")),
         "outcome_classes": dict(ctx.classes),
         "distinct_outcome_classes": len(ctx.classes),
